@@ -62,7 +62,30 @@ def constraint_census(c, facts):
         c.ok(R, {'constrain': 'no break / early return inside the traversal'})
 
 
+def r15_error_class(c, facts, rule='C07.R15'):
+    """Which failing equation or check is met first depends on the order of declarations; the class of error reported
+    must not: every error constructed by the inference and kind-checking phase is of one class (InvalidType)."""
+    R = c.rule(rule, 'ERROR-CLASS: every error raised by inference and type checking is of the same class, whichever equation fails first')
+    kinds = {}
+    n = 0
+    for fn in sorted(facts.fns.values(), key=lambda f: f.qname):
+        if not fn.mir or not (fn.qname.startswith('oal_compiler::inference') or fn.qname.startswith('oal_compiler::typecheck')) or '::tests::' in fn.qname:
+            continue
+        for b, blk in fn.blocks():
+            for st in blk['stmts']:
+                if st['s'] == 'assign' and st['rv']['r'] == 'aggr' and (st['rv'].get('adt') or '').endswith('errors::Kind'):
+                    kinds.setdefault(st['rv'].get('variant'), set()).add(fn.qname.split('::{closure')[0])
+                    n += 1
+    c.floor(R, 'error constructions in inference and typecheck', n, 20)
+    other = {k: sorted(v) for k, v in kinds.items() if k != 'InvalidType'}
+    if other:
+        c.bad(R, 'error-class:%s' % ','.join('%s@%s' % (k, ','.join(x.split('::')[-1] for x in v)) for k, v in sorted(other.items())), 'inference / type checking also reports %s: for a program with two faults the class of the error depends on which is reached first, i.e. on the order of declarations' % other)
+    else:
+        c.ok(R, {'kinds': sorted(kinds), 'sites': n})
+
+
 def run(c, facts):
+    c.run(r15_error_class, facts)
     c.run(lambda c: I.reduce_first(c, facts, c.rule('C07.R13', 'REDUCE-FIRST: unify() reduces both operands with the current substitution before inspecting them, in every (recursive) call')))
     import c09
     import c05
